@@ -15,7 +15,11 @@ package props
 //     from Encodings.md, independent of the library: other legal block/miniblock geometries,
 //     non-minimal bit widths, any frame of reference, arbitrary width bytes of unneeded miniblocks,
 //     arbitrary padding): Go Decode(stream) = values and Lean specDecode(stream) = values (the
-//     latter validates the reference encoder).
+//     latter validates the reference encoder); decodeInt32/64 (hooks VerifDecodeInt32/64) leave exactly the
+//     bytes that follow the stream unread; DecodeFixedLenByteArray reads foreign streams too (confflba);
+//     the reference encoder's choices are sent to Lean as a ConfStream description (op delta.conf32/64):
+//     the description must be well-formed (so the theorems conformant32/64_spec/_go, conformant_dlba/dba_*
+//     of Props/C04DeltaConf.lean apply to the very stream) and render to the same bytes and values.
 // Observations (ctx.Observe: outside C04 as stated, reported in the evidence, never in the verdict):
 //   * malformed / extended streams that the library's own encoders never produce: Go decoder vs SPEC
 //     decoder; both succeed => same values; every other combination is either one of the
@@ -29,8 +33,13 @@ package props
 //   i32 <ints> | i64 <ints> | dlba <vals> | dba <vals> | flba <size> <hex>
 //   win-dlba <base> <tail> <vals> | win-dba <base> <tail> <vals>
 //   mal32 <hex> | mal64 <hex> | maldlba <hex> | maldba <hex>
-//   conf32 <stream hex> <ints> | conf64 <stream hex> <ints> | confdlba <stream hex> <vals> | confdba <stream hex> <vals>
-//     (a spec-conformant stream produced by the reference encoder below + the values it encodes)
+//   conf32 <stream hex> <ints> [<n>] | conf64 <stream hex> <ints> [<n>] | confdlba <stream hex> <vals> | confdba <stream hex> <vals>
+//   confflba <size> <stream hex> <values hex>
+//     (a spec-conformant stream produced by the reference encoder below + the values it encodes; <n> = number of
+//      bytes that follow the stream in the decoder's input — decodeInt32/64 must hand back exactly those)
+//   unpack32 <width> <n> <hex> | unpack64 <width> <n> <hex>
+//     (L2 only: bitpack.Unpack reading n values of the given width vs the Lean mirror of the portable kernel,
+//      which is proved equal to LSB-first unpacking: unpack32/64_kernel)
 // (<vals>: comma separated hex strings, "e" = empty value, "-" = empty list)
 
 import (
@@ -46,6 +55,7 @@ import (
 	"strings"
 	"sync"
 
+	"github.com/parquet-go/bitpack"
 	"github.com/parquet-go/parquet-go/encoding/delta"
 
 	"verifharness/core"
@@ -56,7 +66,17 @@ func init() { RegisterSub("C04", "delta", RunC04Delta) }
 
 const c04dWorkers = 8 // fixed, so that the case -> worker (= buffer history) assignment replays from the seed
 
+// one DELTA_BINARY_PACKED stream of the reference encoder as a ConfStream description (Lean op
+// delta.conf32/64), with the bytes and the values it must render to
+type c04dConfPart struct {
+	bits int
+	desc string
+	raw  []byte
+	ints []int64
+}
+
 type c04dCase struct {
+	conf       []c04dConfPart
 	kind       string
 	ints       []int64
 	vals       [][]byte
@@ -99,7 +119,14 @@ func (c c04dCase) canon() string {
 	case "win-dlba", "win-dba":
 		return fmt.Sprintf("%s %d %d %s", c.kind, c.base, c.tail, c04dVals(c.vals))
 	case "conf32", "conf64":
+		if c.tail > 0 {
+			return fmt.Sprintf("%s %s %s %d", c.kind, core.Hex(c.raw), core.JoinInts(c.ints), c.tail)
+		}
 		return c.kind + " " + core.Hex(c.raw) + " " + core.JoinInts(c.ints)
+	case "confflba":
+		return fmt.Sprintf("confflba %d %s %s", c.size, core.Hex(c.raw), c04dVals(c.vals))
+	case "unpack32", "unpack64":
+		return fmt.Sprintf("%s %d %d %s", c.kind, c.size, c.tail, core.Hex(c.raw))
 	case "confdlba", "confdba":
 		return c.kind + " " + core.Hex(c.raw) + " " + c04dVals(c.vals)
 	default:
@@ -183,6 +210,30 @@ func c04dParse(line string) (c04dCase, bool) {
 				c.ints = append(c.ints, v)
 			}
 		}
+		if len(f) >= 4 {
+			c.tail, _ = strconv.Atoi(f[3])
+		}
+	case "confflba":
+		if len(f) < 4 {
+			return c, false
+		}
+		c.size, _ = strconv.Atoi(f[1])
+		c.raw, ok = c04dParseHex(f[2])
+		if ok {
+			c.vals, ok = c04dParseVals(f[3])
+		}
+	case "unpack32", "unpack64":
+		if len(f) < 4 {
+			return c, false
+		}
+		c.size, _ = strconv.Atoi(f[1])
+		c.tail, _ = strconv.Atoi(f[2])
+		c.raw, ok = c04dParseHex(f[3])
+		maxW := 32
+		if f[0] == "unpack64" {
+			maxW = 64
+		}
+		ok = ok && c.size >= 1 && c.size <= maxW && c.tail >= 0 && c.tail*c.size <= 8*len(c.raw)
 	case "confdlba", "confdba":
 		if len(f) < 3 {
 			return c, false
@@ -847,6 +898,18 @@ func (w *c04dWorker) godec(kind, rawHex, goRes, canon string, malformed bool) {
 		}
 		ctx.Fail("L2", "delta-"+kind+"-decoder-mirror", "the Go decoder and the Lean mirror of the portable decoder disagree ("+ctx.Variant+" build)", detail)
 	})
+	if kind == "dba" && !malformed && ctx.Variant == "asm" && strings.HasPrefix(goRes, "ok ") {
+		// the mirror of what the assembly build really runs: the amd64 Go wrapper with the AVX2 kernels
+		// replaced by their contract (theorem dba_amd64_wrapper_eq_portable)
+		w.ask("dba.godecamd64 "+rawHex, func(ans string) {
+			if ans != goRes {
+				ctx.Fail("L2", "delta-dba-amd64-wrapper-mirror", "DecodeByteArray on the assembly build and the Lean mirror of the amd64 Go wrapper (AVX2 kernels by contract) disagree",
+					map[string]any{"case": c04dClip(canon), "impl": c04dClip(goRes), "model": c04dClip(ans)})
+			} else {
+				ctx.Hist("decoder-mirror-dba-amd64-wrapper", "equal")
+			}
+		})
+	}
 }
 
 // raw outcome of LengthByteArrayEncoding.DecodeByteArray in the format of `dlba.godec`
@@ -1061,7 +1124,7 @@ func (w *c04dWorker) runFLBA(c c04dCase) {
 // miniblock is arbitrary.
 
 var c04dGeometries = [][2]int{{128, 4}, {128, 2}, {128, 1}, {256, 4}, {256, 8}, {256, 2}, {256, 1}, {384, 4}, {384, 12},
-	{512, 4}, {512, 16}, {512, 8}, {640, 20}, {1024, 8}, {1024, 32}}
+	{512, 4}, {512, 16}, {512, 8}, {640, 20}, {1024, 8}, {1024, 32}, {2048, 2}, {4096, 128}, {65536, 2048}}
 
 type c04dBitWriter struct {
 	b []byte
@@ -1089,7 +1152,11 @@ func c04dBitLen(x uint64) int {
 	return n
 }
 
-func c04dRefDelta(r *rand.Rand, bits int, vals []int64, bs, minis int) []byte {
+// Returns the stream and, for the Lean side, the description of the choices made (a `ConfStream`:
+// <block size> <miniblocks> <total> <first> <blocks>, blocks `<min delta>:<width>/<packed values>;…:<stale widths>`
+// separated by `|`).
+func c04dRefDelta(r *rand.Rand, bits int, vals []int64, bs, minis int) ([]byte, c04dConfPart) {
+	var desc strings.Builder
 	mask := ^uint64(0)
 	if bits == 32 {
 		mask = 0xFFFFFFFF
@@ -1109,9 +1176,16 @@ func c04dRefDelta(r *rand.Rand, bits int, vals []int64, bs, minis int) []byte {
 		first = vals[0]
 	}
 	out = binary.AppendVarint(out, first)
+	fmt.Fprintf(&desc, "%d %d %d %d ", bs, minis, len(vals), first)
+	if len(vals) < 2 {
+		desc.WriteByte('-')
+	}
 	vpm := bs / minis
 	style := r.Intn(4) // 0 minimal, 1 minimal widths + random extra, 2 random frame of reference, 3 mixed
 	for i := 1; i < len(vals); i += bs {
+		if i > 1 {
+			desc.WriteByte('|')
+		}
 		end := min(i+bs, len(vals))
 		deltas := make([]uint64, end-i)
 		minD := int64(math.MaxInt64)
@@ -1127,13 +1201,19 @@ func c04dRefDelta(r *rand.Rand, bits int, vals []int64, bs, minis int) []byte {
 			minD = sext(uint64(minD))
 		}
 		out = binary.AppendVarint(out, minD)
+		fmt.Fprintf(&desc, "%d:", minD)
+		var stale []string
 		widths := make([]byte, minis)
 		for m := 0; m < minis; m++ {
 			lo := m * vpm
 			if lo >= len(deltas) { // unneeded miniblock: any width byte, no body
 				if r.Intn(2) == 0 {
 					widths[m] = byte(r.Intn(256))
+					if r.Intn(3) == 0 { // a plausible stale width, as a writer reusing its width array leaves it
+						widths[m] = byte(1 + r.Intn(bits))
+					}
 				}
+				stale = append(stale, strconv.Itoa(int(widths[m])))
 				continue
 			}
 			need := 0
@@ -1149,6 +1229,10 @@ func c04dRefDelta(r *rand.Rand, bits int, vals []int64, bs, minis int) []byte {
 		for m := 0; m < minis && m*vpm < len(deltas); m++ {
 			var bw c04dBitWriter
 			wd := int(widths[m])
+			if m > 0 {
+				desc.WriteByte(';')
+			}
+			fmt.Fprintf(&desc, "%d/", wd)
 			for k := m * vpm; k < (m+1)*vpm; k++ {
 				var x uint64
 				if k < len(deltas) {
@@ -1157,14 +1241,24 @@ func c04dRefDelta(r *rand.Rand, bits int, vals []int64, bs, minis int) []byte {
 					x = r.Uint64() >> uint(64-wd)
 				}
 				bw.put(x, wd)
+				if k > m*vpm {
+					desc.WriteByte(',')
+				}
+				desc.WriteString(strconv.FormatUint(x, 10))
 			}
 			out = append(out, bw.b...)
 		}
+		desc.WriteByte(':')
+		if len(stale) == 0 {
+			desc.WriteByte('-')
+		} else {
+			desc.WriteString(strings.Join(stale, ","))
+		}
 	}
-	return out
+	return out, c04dConfPart{bits: bits, desc: desc.String(), raw: out, ints: vals}
 }
 
-func c04dRefLens(r *rand.Rand, lens []int) []byte {
+func c04dRefLens(r *rand.Rand, lens []int) ([]byte, c04dConfPart) {
 	g := c04dGeometries[r.Intn(len(c04dGeometries))]
 	v := make([]int64, len(lens))
 	for i, l := range lens {
@@ -1174,19 +1268,20 @@ func c04dRefLens(r *rand.Rand, lens []int) []byte {
 }
 
 // DELTA_LENGTH_BYTE_ARRAY: lengths (DELTA_BINARY_PACKED) then the bytes
-func c04dRefDLBA(r *rand.Rand, vs [][]byte) []byte {
+func c04dRefDLBA(r *rand.Rand, vs [][]byte) ([]byte, []c04dConfPart) {
 	lens := make([]int, len(vs))
 	var data []byte
 	for i, v := range vs {
 		lens[i] = len(v)
 		data = append(data, v...)
 	}
-	return append(c04dRefLens(r, lens), data...)
+	b, part := c04dRefLens(r, lens)
+	return append(bytes.Clone(b), data...), []c04dConfPart{part}
 }
 
 // DELTA_BYTE_ARRAY: prefix lengths (DELTA_BINARY_PACKED) then the suffixes (DELTA_LENGTH_BYTE_ARRAY);
 // the prefix is the longest common prefix with the previous value, or (still decodable) a shorter one
-func c04dRefDBA(r *rand.Rand, vs [][]byte) []byte {
+func c04dRefDBA(r *rand.Rand, vs [][]byte) ([]byte, []c04dConfPart) {
 	short := r.Intn(3) == 0
 	prefs := make([]int, len(vs))
 	sufs := make([][]byte, len(vs))
@@ -1201,7 +1296,9 @@ func c04dRefDBA(r *rand.Rand, vs [][]byte) []byte {
 		}
 		prefs[i], sufs[i], prev = p, v[p:], v
 	}
-	return append(c04dRefLens(r, prefs), c04dRefDLBA(r, sufs)...)
+	pb, part := c04dRefLens(r, prefs)
+	sb, parts := c04dRefDLBA(r, sufs)
+	return append(bytes.Clone(pb), sb...), append([]c04dConfPart{part}, parts...)
 }
 
 // L1 on conformant streams of foreign origin: the Go decoders and the Lean spec decoder must both
@@ -1213,14 +1310,67 @@ func (w *c04dWorker) runConformant(c c04dCase) {
 	if hdr, ok := c04dHeader(c.raw); ok {
 		ctx.Hist(c.kind+"-geometry", fmt.Sprintf("%d/%d", hdr[0], hdr[1]))
 	}
+	name := map[string]string{"conf32": "delta32", "conf64": "delta64", "confdlba": "dlba", "confdba": "dba", "confflba": "dba-flba"}[c.kind]
+	const whatGo = "the Go decoder does not return the encoded values from a spec-conformant stream written by another encoder (legal block/miniblock geometry, widths, frame of reference the library's own encoder never uses)"
+	// the reference encoder's streams belong to the family the theorems of Props/C04DeltaConf.lean quantify over
+	for _, part := range c.conf {
+		part := part
+		stale := "none"
+		if i := strings.LastIndexByte(part.desc, ':'); i >= 0 && part.desc[i+1:] != "-" {
+			stale = "all-zero"
+			for _, x := range strings.Split(part.desc[i+1:], ",") {
+				if x != "0" {
+					stale = "non-zero"
+				}
+			}
+		}
+		ctx.Hist(c.kind+"-unneeded-miniblock-widths", stale)
+		want := "ok " + core.Hex(part.raw) + " " + core.JoinInts(part.ints)
+		w.ask(fmt.Sprintf("delta.conf%d %s", part.bits, part.desc), func(ans string) {
+			if ans != want {
+				ctx.Fail("L2", "delta-conformant-family-mirror", "the reference encoder's stream is not the stream (or not the values) the Lean family of conformant streams renders from the same choices, or the choices are not well-formed",
+					map[string]any{"case": c04dClip(canon), "desc": c04dClip(part.desc), "model": c04dClip(ans)})
+			}
+		})
+	}
 	var op, want, goRes string
 	switch c.kind {
 	case "conf32", "conf64":
 		ctx.Case(canon, len(c.ints) >= 2)
 		ctx.Hist(c.kind+"-length", c04dLenClass(len(c.ints)))
+		ctx.Hist(c.kind+"-followed-by-bytes", strconv.FormatBool(c.tail > 0))
 		op = "delta.specdec" + c.kind[4:]
 		want = "ok " + core.JoinInts(c.ints)
 		goRes = c04dGoDecode("mal"+c.kind[4:], c04dBeyond(c.raw, 0xFF))
+		// the internal decoder with something after the stream: values and the unread rest
+		tail := make([]byte, c.tail)
+		for i := range tail {
+			tail[i] = byte(i*37 + 11)
+		}
+		full := append(bytes.Clone(c.raw), tail...)
+		restRes := c04dGoDecodeRest(c.kind[4:], c04dBeyond(full, 0xFF))
+		if wantRest := fmt.Sprintf("%s %d", want, c.tail); restRes != wantRest && goRes == want {
+			ctx.Fail("L1", name+"-decode-conformant-foreign-rest",
+				"decodeInt32/64 does not hand back exactly the bytes that follow a spec-conformant stream (DELTA_LENGTH_BYTE_ARRAY / DELTA_BYTE_ARRAY continue decoding there)",
+				map[string]any{"case": c04dClip(canon), "go": c04dClip(restRes), "want_unread": c.tail})
+		}
+		fullHex := core.Hex(full)
+		w.ask("delta.godecrest"+c.kind[4:]+" "+fullHex, func(ans string) {
+			if ans == "err overwide" {
+				return
+			}
+			if ans != restRes && !(strings.HasPrefix(ans, "err ") && strings.HasPrefix(restRes, "err ")) {
+				ctx.Fail("L2", "delta-"+c.kind[4:]+"-decoder-rest", "the Go decoder and the Lean mirror disagree on the values or on the number of unread bytes ("+ctx.Variant+" build)",
+					map[string]any{"case": c04dClip(canon), "impl": c04dClip(restRes), "model": c04dClip(ans)})
+			}
+		})
+	case "confflba":
+		ctx.Case(canon, len(c.vals) >= 2)
+		ctx.Hist("confflba-size", strconv.Itoa(c.size))
+		ctx.Hist("confflba-count", c04dLenClass(len(c.vals)))
+		op = "dba.specdec"
+		want = "ok " + c04dVals(c.vals)
+		goRes = c04dGoDecodeFLBA(c04dBeyond(c.raw, 0xFF), c.size)
 	default:
 		ctx.Case(canon, len(c.vals) >= 2)
 		ctx.Hist(c.kind+"-count", c04dLenClass(len(c.vals)))
@@ -1228,15 +1378,16 @@ func (w *c04dWorker) runConformant(c c04dCase) {
 		want = "ok " + c04dVals(c.vals)
 		goRes = c04dGoDecode("mal"+c.kind[4:], c04dBeyond(c.raw, 0xFF))
 	}
-	name := map[string]string{"conf32": "delta32", "conf64": "delta64", "confdlba": "dlba", "confdba": "dba"}[c.kind]
 	if goRes != want {
-		ctx.Fail("L1", name+"-decode-conformant-foreign-geometry",
-			"the Go decoder does not return the encoded values from a spec-conformant stream written by another encoder (legal block/miniblock geometry, widths, frame of reference the library's own encoder never uses)",
+		ctx.Fail("L1", name+"-decode-conformant-foreign-geometry", whatGo,
 			map[string]any{"case": c04dClip(canon), "go": c04dClip(goRes)})
 	}
-	if c.kind == "confdlba" {
+	switch c.kind {
+	case "confdlba":
 		w.godec("dlba", rawHex, c04dGoDecodeDLBARaw(c04dBeyond(c.raw, 0xFF)), canon, false)
-	} else {
+	case "confflba":
+		w.godec("dba", rawHex, goRes, canon, false)
+	default:
 		w.godec(strings.TrimPrefix(c.kind, "conf"), rawHex, goRes, canon, false)
 	}
 	w.ask(op+" "+rawHex, func(ans string) {
@@ -1246,6 +1397,96 @@ func (w *c04dWorker) runConformant(c c04dCase) {
 				map[string]any{"case": c04dClip(canon), "spec": c04dClip(ans)})
 		}
 	})
+}
+
+// L2 for the unpacking kernel the decoders call: bitpack.Unpack (assembly on the asm build, unpackInt32/64 on
+// purego) vs the Lean transliteration of the portable kernel (goUnpackInt32/64, proved equal to LSB-first
+// unpacking). The buffer is followed by garbage: the padding the kernels may read must not matter.
+func (w *c04dWorker) runUnpack(c c04dCase) {
+	ctx := w.ctx
+	canon := c.canon()
+	width, n := c.size, c.tail
+	ctx.Case(canon, n >= 2)
+	ctx.Hist(c.kind+"-width", fmt.Sprintf("%02d", width))
+	buf := make([]byte, len(c.raw)+64)
+	copy(buf, c.raw)
+	for i := len(c.raw); i < len(buf); i++ {
+		buf[i] = 0xA5
+	}
+	var got string
+	func() {
+		defer func() {
+			if p := recover(); p != nil {
+				got = "panic " + fmt.Sprint(p)
+			}
+		}()
+		if c.kind == "unpack32" {
+			dst := make([]int32, n)
+			bitpack.Unpack(dst, buf[:len(c.raw)], uint(width))
+			u := make([]uint32, n)
+			for i, v := range dst {
+				u[i] = uint32(v)
+			}
+			got = "ok " + core.JoinInts(u)
+		} else {
+			dst := make([]int64, n)
+			bitpack.Unpack(dst, buf[:len(c.raw)], uint(width))
+			u := make([]uint64, n)
+			for i, v := range dst {
+				u[i] = uint64(v)
+			}
+			got = "ok " + core.JoinInts(u)
+		}
+	}()
+	w.ask(fmt.Sprintf("delta.%s %d %d %s", c.kind, width, n, core.Hex(c.raw)), func(ans string) {
+		if ans != got {
+			ctx.Fail("L2", "delta-unpack-kernel-mirror", "bitpack.Unpack and the Lean mirror of the portable kernel disagree ("+ctx.Variant+" build)",
+				map[string]any{"case": c04dClip(canon), "impl": c04dClip(got), "model": c04dClip(ans)})
+		}
+	})
+}
+
+// outcome of the internal decodeInt32/64 (hooks VerifDecodeInt32/64): "ok <ints> <unread bytes>" | "err …" | "panic …"
+func c04dGoDecodeRest(bits string, raw []byte) (res string) {
+	defer func() {
+		if p := recover(); p != nil {
+			res = "panic " + fmt.Sprint(p)
+		}
+	}()
+	if bits == "32" {
+		v, rest, err := delta.VerifDecodeInt32(raw)
+		if err != nil {
+			return "err " + err.Error()
+		}
+		return fmt.Sprintf("ok %s %d", core.JoinInts(v), rest)
+	}
+	v, rest, err := delta.VerifDecodeInt64(raw)
+	if err != nil {
+		return "err " + err.Error()
+	}
+	return fmt.Sprintf("ok %s %d", core.JoinInts(v), rest)
+}
+
+// outcome of ByteArrayEncoding.DecodeFixedLenByteArray as a value list: "ok <vals>" | "err …" | "panic …"
+func c04dGoDecodeFLBA(raw []byte, size int) (res string) {
+	defer func() {
+		if p := recover(); p != nil {
+			res = "panic " + fmt.Sprint(p)
+		}
+	}()
+	dst := c04dFF(64, 64)[:0] // dirty destination
+	out, err := (&delta.ByteArrayEncoding{}).DecodeFixedLenByteArray(dst, raw, size)
+	if err != nil {
+		return "err " + err.Error()
+	}
+	if size == 0 || len(out)%size != 0 {
+		return "ok !length-" + strconv.Itoa(len(out))
+	}
+	vs := make([][]byte, len(out)/size)
+	for i := range vs {
+		vs[i] = out[i*size : (i+1)*size]
+	}
+	return "ok " + c04dVals(vs)
 }
 
 // ---------------------------------------------------------------- malformed streams
@@ -1449,8 +1690,10 @@ func (w *c04dWorker) run(c c04dCase) {
 		if c.size > 0 && len(c.raw)%c.size == 0 {
 			w.runFLBA(c)
 		}
-	case "conf32", "conf64", "confdlba", "confdba":
+	case "conf32", "conf64", "confdlba", "confdba", "confflba":
 		w.runConformant(c)
+	case "unpack32", "unpack64":
+		w.runUnpack(c)
 	default:
 		w.runMalformed(c)
 	}
@@ -1478,7 +1721,7 @@ func c04dCorners(ctx *core.Ctx) {
 }
 
 func RunC04Delta(ctx *core.Ctx) {
-	ctx.SetRule("delta: value sequences (int32/int64: boundary lengths 0,1,2,31..34,63..66,127..131,255..259,1000s x 12 value patterns incl. overflowing deltas; byte arrays: 9 patterns incl. empty/long/0xFF/word-boundary shared prefixes; FLBA sizes 1..33) encoded by the real encoder into nil and dirty/reused dst, decoded by Go and by the Lean spec decoder, compared byte-exact with the Lean mirror; plus spec-conformant streams of a reference encoder written from Encodings.md (15 block/miniblock geometries, non-minimal widths, any frame of reference) decoded by Go and by the spec decoder; plus malformed streams (random, free-form, truncated, mutated, extended; observations only). Distinct by canonical input text; non-trivial = at least 2 values (ints), at least 2 values with a non-empty one (byte arrays), more than 4 bytes (malformed)")
+	ctx.SetRule("delta: value sequences (int32/int64: boundary lengths 0,1,2,31..34,63..66,127..131,255..259,1000s x 12 value patterns incl. overflowing deltas; byte arrays: 9 patterns incl. empty/long/0xFF/word-boundary shared prefixes; FLBA sizes 1..33) encoded by the real encoder into nil and dirty/reused dst, decoded by Go and by the Lean spec decoder, compared byte-exact with the Lean mirror; plus spec-conformant streams of a reference encoder written from Encodings.md (18 block/miniblock geometries up to the 65536 limit, non-minimal widths, any frame of reference) decoded by Go and by the spec decoder, unneeded miniblocks with stale width bytes, bytes following the stream (decodeInt32/64 must leave exactly those unread), FIXED_LEN_BYTE_ARRAY through foreign DELTA_BYTE_ARRAY streams, every stream also rendered by the Lean family of conformant streams from the same choices; plus malformed streams (random, free-form, truncated, mutated, extended; observations only). Distinct by canonical input text; non-trivial = at least 2 values (ints), at least 2 values with a non-empty one (byte arrays), more than 4 bytes (malformed)")
 	var cases []c04dCase
 	// corpus / replay first
 	files := ctx.CorpusFiles()
@@ -1570,11 +1813,18 @@ func RunC04Delta(ctx *core.Ctx) {
 				}
 				n := c04dLen(r) % 1300
 				if r.Intn(3) == 0 { // around the block and miniblock boundaries of this geometry
-					n = max(0, []int{g[0] / g[1], g[0], 2 * g[0], g[0] + g[0]/g[1]}[r.Intn(4)]+r.Intn(5)-1)
+					if k := []int{g[0] / g[1], g[0], 2 * g[0], g[0] + g[0]/g[1]}[r.Intn(4)]; k <= 5000 {
+						n = max(0, k+r.Intn(5)-1)
+					}
 				}
 				pat := c04dIntPats[r.Intn(len(c04dIntPats))]
 				xs := c04dInts(r, b, n, pat)
-				cases = append(cases, c04dCase{kind: kind, ints: xs, raw: c04dRefDelta(r, b, xs, g[0], g[1]), pat: pat, seed: r.Int63()})
+				raw, part := c04dRefDelta(r, b, xs, g[0], g[1])
+				tail := 0
+				if r.Intn(2) == 0 { // something follows the stream, as the value bytes do in the byte-array encodings
+					tail = 1 + r.Intn(40)
+				}
+				cases = append(cases, c04dCase{kind: kind, ints: xs, raw: raw, conf: []c04dConfPart{part}, tail: tail, pat: pat, seed: r.Int63()})
 			}
 			if i%3 == 0 {
 				pat := c04dBytePats[r.Intn(len(c04dBytePats))]
@@ -1583,8 +1833,18 @@ func RunC04Delta(ctx *core.Ctx) {
 					n = n % 40
 				}
 				vs := c04dBytes(r, n, pat)
-				cases = append(cases, c04dCase{kind: "confdlba", vals: vs, raw: c04dRefDLBA(r, vs), pat: pat, seed: r.Int63()})
-				cases = append(cases, c04dCase{kind: "confdba", vals: vs, raw: c04dRefDBA(r, vs), pat: pat, seed: r.Int63()})
+				raw, parts := c04dRefDLBA(r, vs)
+				cases = append(cases, c04dCase{kind: "confdlba", vals: vs, raw: raw, conf: parts, pat: pat, seed: r.Int63()})
+				raw, parts = c04dRefDBA(r, vs)
+				cases = append(cases, c04dCase{kind: "confdba", vals: vs, raw: raw, conf: parts, pat: pat, seed: r.Int63()})
+				// FIXED_LEN_BYTE_ARRAY values through a foreign DELTA_BYTE_ARRAY stream (DecodeFixedLenByteArray)
+				size := []int{1, 2, 3, 7, 8, 9, 12, 15, 16, 17, 31, 32, 33}[r.Intn(13)]
+				fvs := make([][]byte, 0, len(vs))
+				for _, v := range vs[:min(len(vs), 300)] { // cut or pad every value to `size`
+					fvs = append(fvs, append(bytes.Clone(v), bytes.Repeat([]byte{0}, size)...)[:size])
+				}
+				raw, parts = c04dRefDBA(r, fvs)
+				cases = append(cases, c04dCase{kind: "confflba", size: size, vals: fvs, raw: raw, conf: parts, pat: pat, seed: r.Int63()})
 			}
 		}
 		nWin := ctx.Scale(300, 3000) * mul
@@ -1601,6 +1861,36 @@ func RunC04Delta(ctx *core.Ctx) {
 					c.base, c.tail = 1+r.Intn(9), 1+r.Intn(9)
 				}
 				cases = append(cases, c)
+			}
+		}
+		// the unpacking kernel on the shapes the decoders call it with: a miniblock of vpm values, the first n read
+		nUnp := ctx.Scale(600, 5000) * mul
+		for i := 0; i < nUnp; i++ {
+			for _, kind := range []string{"unpack32", "unpack64"} {
+				maxW := 32
+				if kind == "unpack64" {
+					maxW = 64
+				}
+				width := 1 + i%maxW
+				vpm := []int{32, 64, 128, 256}[r.Intn(4)]
+				n := 1 + r.Intn(vpm)
+				if r.Intn(3) == 0 {
+					n = vpm
+				}
+				raw := make([]byte, vpm*width/8)
+				switch r.Intn(3) {
+				case 0:
+					r.Read(raw)
+				case 1:
+					for j := range raw {
+						raw[j] = 0xFF
+					}
+				default:
+					for j := range raw {
+						raw[j] = byte(1) << uint(r.Intn(8))
+					}
+				}
+				cases = append(cases, c04dCase{kind: kind, size: width, tail: n, raw: raw, pat: "unpack", seed: r.Int63()})
 			}
 		}
 		nMal := ctx.Scale(2500, 20000) * mul
